@@ -43,6 +43,8 @@ def drive_case(bins, case, idx):
         if ti == 0 and case["resolve"] == "def_nopath":
             t.setdefault("commands", {})["definitions"] = {"build": {}}
         targets.append(t)
+    if idx % 2 == 1:
+        targets.reverse()       # declaration order is not the sorted order
     fx = fixture.Fixture(bins, targets)
     try:
         files = {}     # (target, mapname) -> content dict
